@@ -642,6 +642,9 @@ def c11(ctx):
     rc = dict(rp, Prelude=rprel, PreludeDrain=True, MaxFlight=2, MaxSend=0, MaxSMPStart=1, MaxSMPAnswer=1, Secrets=[5, 6])
     ctx.model("c11-refresh", rc, ["SMPSuccessSound", "SMPFailureSound", "SMPNotStuck"], timeout=2400)
     ctx.export_validate("c11x-refresh", rc, "none", drain=True, maxsched=200 if q else 4000)
+    # secrets that differ only in white space at an end, with and without a question
+    ctx.export_validate("c11x-ws", dict(SMPCFG, MaxSMPStart=1, MaxSMPAnswer=1, Secrets=[11, 12]), "none", drain=True, maxsched=150 if q else 2000)
+    ctx.export_validate("c11x-ws2", dict(SMPCFG, MaxSMPStart=1, MaxSMPAnswer=1, Secrets=[9, 10]), "none", drain=True, maxsched=150 if q else 2000)
     ctx.random_validate("smp", 48 if q else 480, 4 if q else 10)
     ctx.attack_catalogue("relay")
 
@@ -773,6 +776,8 @@ def c10(ctx):
         pol, prelude = STARTS[name]
         ctx.export_validate("c10x-" + name, dict(pol, Prelude=prelude, MaxFlight=4, MaxSend=1), "none", drain=True, maxsched=300 if q else None)
     ctx.export_validate("c10x-smp", dict(SMPCFG, MaxSMPStart=1, MaxSMPAnswer=1, Secrets=[4]), "none", drain=True, maxsched=100 if q else None)
+    # two starts (a start while the peer's request is waiting for our answer: abort TLV first, then the new request)
+    ctx.export_validate("c10x-smp2", dict(SMPCFG, MaxSMPStart=2, MaxSMPAnswer=1, Secrets=[4]), "none", drain=True, maxsched=300 if q else 4000)
     ctx.random_validate("data", 32 if q else 320, 80)
     ctx.random_validate("fragsweep", 8 if q else 32, 30)
     ctx.random_validate("life", 32 if q else 320, 60)
